@@ -108,6 +108,18 @@ class Ctx:
         self.events.append(("period", t))
         for h in self.period_hooks:
             h(self, network, t)
+        for r in self.sc.get("reconfig", ()):
+            if r["t"] == t + 1:
+                self.apply_reconfig(network, r)
+
+    def apply_reconfig(self, network, r):
+        """Environment fault: the operator changes a constraint's limit between two periods (public update_constraint)."""
+        c = next((k for k in self.sc["network"]["constraints"] if k["name"] == r["name"]), None)
+        if c is None or r["name"] not in network.constraint_index:
+            return
+        network.update_constraint(r["name"], sut.Current(dict(c["coeffs"])), r["limit"])
+        self.fired("reconfig")
+        self.events.append(("reconfig", r["t"], r["name"], r["limit"]))
 
 
 _CUR = [None]
